@@ -972,7 +972,19 @@ struct equal_n_fn<pixel<T, CS> const*, pixel<T, CS> const*>
     BOOST_FORCEINLINE
     bool operator()(pixel<T, CS> const* i1, std::ptrdiff_t n, pixel<T, CS> const* i2) const
     {
+        return apply(i1, n, i2, std::is_integral<typename base_channel_type<T>::type>());
+    }
+
+private:
+    static bool apply(pixel<T, CS> const* i1, std::ptrdiff_t n, pixel<T, CS> const* i2, std::true_type)
+    {
         return memcmp(i1, i2, n * sizeof(pixel<T, CS>)) == 0;
+    }
+
+    // floating point channels are not bitwise comparable: +0.0 == -0.0
+    static bool apply(pixel<T, CS> const* i1, std::ptrdiff_t n, pixel<T, CS> const* i2, std::false_type)
+    {
+        return std::equal(i1, i1 + n, i2);
     }
 };
 
@@ -990,11 +1002,15 @@ struct equal_n_fn<planar_pixel_iterator<IC, CS>, planar_pixel_iterator<IC, CS>>
     BOOST_FORCEINLINE
     bool operator()(planar_pixel_iterator<IC, CS> const i1, std::ptrdiff_t n, planar_pixel_iterator<IC, CS> const i2) const
     {
+        using channel_t = typename std::iterator_traits<IC>::value_type;
         // FIXME: ptrdiff_t vs size_t
-        std::ptrdiff_t const byte_size = n * sizeof(typename std::iterator_traits<IC>::value_type);
+        std::ptrdiff_t const byte_size = n * sizeof(channel_t);
         for (std::ptrdiff_t i = 0; i < mp11::mp_size<CS>::value; ++i)
         {
-            if (memcmp(dynamic_at_c(i1, i), dynamic_at_c(i2, i), byte_size) != 0)
+            // floating point channels are not bitwise comparable: +0.0 == -0.0
+            if (std::is_integral<typename base_channel_type<channel_t>::type>::value
+                ? memcmp(dynamic_at_c(i1, i), dynamic_at_c(i2, i), byte_size) != 0
+                : !std::equal(dynamic_at_c(i1, i), dynamic_at_c(i1, i) + n, dynamic_at_c(i2, i)))
                 return false;
         }
         return true;
